@@ -105,9 +105,19 @@ CrashResave ==
                   \cup If(~\E f \in gs : f.ndigest \in {ref, ref2}, "save_differs_from_reference")
   /\ UNCHANGED <<scen, dir, ref, shape, ref2>>
 
-Handled == {"scen.begin", "scen.end", "sys", "sys.end", "crash.ref", "crash.run", "crash.ref2", "crash.resave"}
+\* two checks whose names map to the same fail-file name saved at the same time: whatever can be picked up afterwards is the complete
+\* file of one of them (Ev.refs: the two files as written by each check alone)
+CrashConc ==
+  /\ Is("crash.conc") /\ Adv
+  /\ LET gs == Globbed(Ev.files)
+         R == { Ev.refs[i] : i \in 1..Len(Ev.refs) }
+     IN viol' = viol \cup If(\E f \in gs : ~f.ok \/ f.ndigest \notin R, "partial_file_visible")
+                     \cup If(gs = {}, "not_saved")
+  /\ UNCHANGED <<scen, dir, ref, shape, ref2>>
+
+Handled == {"scen.begin", "scen.end", "sys", "sys.end", "crash.ref", "crash.run", "crash.ref2", "crash.resave", "crash.conc"}
 Other == /\ l <= Len(Trace) /\ Trace[l].ev \notin Handled /\ Adv /\ UNCHANGED <<scen, viol, dir, ref, shape, ref2>>
-Next == ScenBegin \/ ScenEnd \/ Sys \/ SysEnd \/ CrashRef \/ CrashRun \/ CrashRef2 \/ CrashResave \/ Other
+Next == ScenBegin \/ ScenEnd \/ Sys \/ SysEnd \/ CrashRef \/ CrashRun \/ CrashRef2 \/ CrashResave \/ CrashConc \/ Other
 Spec == Init /\ [][Next]_vars
 
 HW == /\ TLCSet(1, IF l > TLCGet(1) THEN l ELSE TLCGet(1))
